@@ -7,7 +7,7 @@ From TK Require Import QuadTree_Model QuadTree_Spec QuadTree_SpecExec QuadTree_P
                        QuadTree_Proof_Fuel QuadTree_Proof_Spec QuadTree_Proof_Exec
                        QuadTree_Proof_Observers QuadTree_Proof_Order QuadTree_Proof_Order2
                        QuadTree_Proof_Bound QuadTree_Proof_Gradient QuadTree_Proof_Dump
-                       QuadTree_Proof_Coarse QuadTree_Proof_Counts.
+                       QuadTree_Proof_Coarse QuadTree_Proof_Counts QuadTree_Proof_Terminates.
 Import ListNotations.
 Local Open Scope Q_scope.
 
@@ -451,3 +451,16 @@ Proof. repeat constructor; cbn; intuition lia. Qed.
 Lemma ex_hyps_counts : in_root ex_data ex_root ex_order /\ NoDup ex_order /\
   exists t, fill_order true 6 ex_data ex_order (init ex_root) = Done true t.
 Proof. exact (conj ex_in_root (conj ex_nodup ex_builds0)). Qed.
+
+(* ---------- every run ends ---------- *)
+
+Lemma insert_terminates_final : forall data order root,
+  in_root data root order ->
+  exists fuel t, fill_order true fuel data order (init root) = Done true t /\
+                 spec data order t /\ geom_ok t /\ qcell t = root.
+Proof.
+  intros data order root Hin.
+  destruct (insert_terminates_gen true data order root Hin (or_introl eq_refl)) as (fuel & t & E).
+  exists fuel, t. split; [exact E|].
+  destruct (routed_once_final fuel data order root true t Hin E) as (_ & H). exact H.
+Qed.
